@@ -202,7 +202,7 @@ def check_paths(case, rec):
         raise Inconclusive("no step converged")
     rec.label(f"plastic_fraction:{min(4, int(5 * n_flow / max(n_ok, 1))) * 20}%+")
     if n_ok < n_tot:
-        rec.label("has_rejected_steps", f"rejected:{sg['surface']}/{sg['rate']}/kin{sg['nkin']}/br{sg['nbranch']}/{sg['solver']}"
+        rec.label("has_rejected_steps", f"rejected:{sg['surface']}/{sg['rate']}/kin{sg['nkin']}/br{sg['nbranch']}/{sg['local']}"
                   f":{int(10 * (1 - n_ok / n_tot)) * 10}%+")
     rec.note_max("rejected_step_fraction", 1.0 - n_ok / n_tot)
     rec.nontrivial(bool(unloaded.any()) or (spec["yield"] is None and n_ok > 0))
@@ -263,6 +263,9 @@ def check_tangent(case, rec):
         err = np.abs(fd[:, :, :2] - col[:, :, None]).max(axis=-1)                        # (Ne,nPg,2,j)
         err = err.min(axis=2)                                                            # disagreement must persist
         if keep.any():
+            import os, sys
+            if os.environ.get("C19_DEBUG") and rec.is_known("tangent_fd", sg) is None and err[keep].max() / sc.Cmax > 1e-7:
+                print("DBG %.2e" % (err[keep].max() / sc.Cmax), k, sg, spec["hard"], spec["rate"], spec["elastic"], spec["ey"], spec["dt"], file=sys.stderr)
             rec.close(err[keep], sc.Cmax, TOL_FD, "tangent_fd",
                       f"step {k}: C_alg differs from the central difference of sigma(eps) at fixed zOld;", **sg)
         kept += int(keep.sum())
@@ -292,8 +295,9 @@ def check_solvers(case, rec):
     slow = cr.build_behaviour(spec, Ne, solver="newton")
     ref = cr.Ref(spec, fast.C, fast.layout.slots)
     sc = Scales(spec, ref)
-    sg = cr.sig_of(spec)
-    sg["solver"] = "both"
+    sg = cr.sig_of(spec, "auto")
+    rec.require(getattr(fast, "_Behavior__eigen") is not None and getattr(slow, "_Behavior__eigen") is None,
+                "dispatch", "solver='auto' did not select the spectral return for a reducible behaviour", **sg)
     rec.label(*[l for l in cr.class_label(spec) if not l.startswith("solver:")])
     strains = cr.make_path(path, mode, spec["ey"])
     z = fast.State_zeros(Ne, nPg)
@@ -302,18 +306,29 @@ def check_solvers(case, rec):
         z0 = np.array(z, float)
         sF, CF, zF, okF = integrate(fast, eps, z, dt)
         sS, CS, zS, okS = integrate(slow, eps, z, dt)
-        m = np.asarray(okF, bool) & np.asarray(okS, bool)
+        okF, okS = np.asarray(okF, bool), np.asarray(okS, bool)
+        m = okF & okS
+        # at neutral loading (f_trial = 0 up to round-off) the two solvers may legitimately pick either side
+        # of the active-set switch: same stress and state, one-sided tangents -> tangents compared only
+        # where both agree on the active set
+        same_set = ((ref.p(np.asarray(zF, float)) - ref.p(z0)) > 0) == ((ref.p(np.asarray(zS, float)) - ref.p(z0)) > 0)
         sc.see(cr.embed6(eps) if mode != "3D" else eps)
         if m.any():
             zFa, zSa = np.asarray(zF, float), np.asarray(zS, float)
-            rec.close((np.asarray(sF) - np.asarray(sS))[m], sc.sig, TOL_SOLVERS, "solvers_sigma",
-                      f"step {k}: spectral and Newton local solvers return different stresses;", **sg)
-            rec.close((zFa - zSa)[m], sc.eps, TOL_SOLVERS, "solvers_state",
-                      f"step {k}: spectral and Newton local solvers return different states;", **sg)
-            rec.close((np.asarray(CF) - np.asarray(CS))[m], sc.Cmax, 1e-6, "solvers_tangent",
-                      f"step {k}: spectral and Newton local solvers return different tangents;", **sg)
+            # both solvers stop on residuals: 1e-10 (dimensionless) on strain rows, 1e-10 max(sy,1) on f
+            for what, err, scale, tol in (
+                ("stresses", (np.asarray(sF) - np.asarray(sS))[m], sc.Cmax * max(1.0, sc.eps) + sc.f, TOL_SOLVERS),
+                ("states", (zFa - zSa)[m], max(1.0, sc.eps), TOL_SOLVERS),
+                ("tangents", (np.asarray(CF) - np.asarray(CS))[m & same_set], sc.Cmax, TOL_FD),
+            ):
+                if err.size and rec.is_known("solvers_agree", sg) is None:
+                    rec.note_max("ratio:solvers_" + what, float(np.abs(err).max()) / scale)
+                rec.close(err, scale, tol, "solvers_agree",
+                          f"step {k}: spectral and Newton local solvers return different {what};", **sg)
+            if (m & ~same_set).any():
+                rec.label("solvers:active_set_tie")
             compared_flow += int((m & ((ref.p(zSa) - ref.p(z0)) > 0)).sum())
-        z = FeArray.asfearray(np.where(np.asarray(okF, bool)[..., None] & m[..., None], np.asarray(zF, float), z0))
+        z = FeArray.asfearray(np.where(m[..., None], np.asarray(zF, float), z0))
     rec.nontrivial(compared_flow > 0)
 
 
